@@ -8,6 +8,7 @@
 // @h c13_version_renamed tier=off bounded=enumerated-literal-crate-and-path,one-requirement-version-pair
 // @h c13_hyphenated_crate tier=both bounded=enumerated-literal-crate-and-path
 // @h c13_no_path_separator tier=both bounded=enumerated-literal-crate-and-path
+// @h c13_first_segment_is_only_a_prefix tier=both bounded=enumerated-literal-crate-and-path
 // @canary canary_c13_policy
 //
 // C13 -- the crate/version policy of the x-rust-type extension, on the policy slice of
@@ -216,6 +217,23 @@ stubs! {
     fn c13_no_path_separator() {
         let (r, _policy) = run(1, None, "uuid", "uuid");
         kani::assert(r.is_none(), "[C13/P6] a path without `::` was substituted");
+        core::mem::forget(r);
+    }
+}
+
+stubs! {
+    fn c13_first_segment_is_only_a_prefix() {
+        // the path's first segment merely STARTS with the crate's identifier: malformed extension
+        let which: bool = kani::any();
+        let (r, _policy) = if which {
+            run(0, None, "uuid", "uuid2::T")
+        } else {
+            run(0, None, "ser", "serde_json::Thing")
+        };
+        kani::assert(
+            r.is_none(),
+            "[C13/P6] a path whose first segment is not the crate's identifier was substituted",
+        );
         core::mem::forget(r);
     }
 }
